@@ -144,8 +144,31 @@ class C05(Prop):
     )
     budgets = {"quick": 200, "thorough": 4000}
 
+    @staticmethod
+    def _gated_default_feed(rng: random.Random) -> dict:
+        """The wrapped group starts on its own DEFAULT for a value whose producer a gate may or may not let run: flat and nested must agree
+        whether the producer runs (default, then the value) or not (default only)."""
+        d, k = rng.randint(5, 9), rng.randint(1, 3)
+        nodes = [{"name": "g", "kind": "ifelse", "params": [["x", None]], "targets": ["p", "q"], "body": {"b": "lt", "k": k}, "defaultOpen": False},
+                 {"name": "p", "kind": "fn", "params": [["x", None]], "dataOuts": ["v"], "body": {"b": "sum", "k": 1}},
+                 {"name": "q", "kind": "fn", "params": [["x", None]], "dataOuts": ["u"], "body": {"b": "tag", "t": "q"}},
+                 {"name": "f", "kind": "fn", "params": [["v", {"d": d}], ["y", None]], "dataOuts": ["w"], "body": {"b": "tag", "t": "f"}},
+                 {"name": "h", "kind": "fn", "params": [["w", None]], "dataOuts": ["z"], "body": {"b": "tag", "t": "h"}}]
+        rng.shuffle(nodes)
+        flat = [{"name": "g0", "nodes": nodes, "bound": []}]
+        subset = rng.choice([["f"], ["f", "h"]])
+        nested = nest(flat, 0, subset, rng, "w0", rename=rng.choice([False, True]), bind_inner=False)
+        return {"flat": flat, "nested": nested, "values": [["x", rng.randint(0, 4)], ["y", rng.randint(0, 3)]], "cuts": [subset]}
+
     def cases(self, rng: random.Random, tier: str) -> Iterable[dict]:
+        forced = 4
         while True:
+            if forced or rng.random() < 0.05:
+                forced = max(0, forced - 1)
+                c = self._gated_default_feed(rng)
+                for runner in ("sync", "async"):
+                    yield dict(c, runner=runner)
+                continue
             c = gen.gen_dag_program(rng, max_nodes=7 if tier == "quick" else 11, depth=0, allow_fed_default=False, allow_emit=False)
             # (ordering signals that cross the nesting boundary are never delivered: recorded finding C05-F1, kept out of the stream)
             flat = c["program"]
